@@ -1,0 +1,36 @@
+//go:build verif
+
+package timemath
+
+// Contracts for the verification machinery in /verif (comment-only; not compiled without the tag).
+
+//@ func Sgn
+//@   ensures sign: (d < 0 ==> result == -1) && (d > 0 ==> result == 1) && (d == 0 ==> result == 0)
+
+//@ func Inv
+//@   ensures neg: (d != -9223372036854775808 ==> mathint(result) == -mathint(d)) && (d == -9223372036854775808 ==> result == 9223372036854775807)
+
+//@ func Midpoint
+//@   requires -4611686018427387904 < x && x < 4611686018427387904
+//@   requires -4611686018427387904 < y && y < 4611686018427387904
+//@   ensures between: (x <= y ==> x <= result && result <= y) && (y <= x ==> y <= result && result <= x)
+//@   ensures exact: mathint(result) == mathint(x) + (mathint(y)-mathint(x))/2
+
+//@ func Median
+//@   panics when len(ds) == 0
+//@   requires forall(i, 0, len(ds), -4611686018427387904 < ds[i] && ds[i] < 4611686018427387904)
+//@   modifies ds[:]
+//@   ensures sorted: forall(i, 0, len(ds), forall(j, i, len(ds), ds[i] <= ds[j]))
+//@   ensures perm: permutation(ds, old(ds))
+//@   ensures within: ds[0] <= result && result <= ds[len(ds)-1]
+//@   ensures odd: len(ds)%2 != 0 ==> result == ds[len(ds)/2]
+//@   ensures even: len(ds)%2 == 0 ==> ds[len(ds)/2-1] <= result && result <= ds[len(ds)/2] && mathint(result) == mathint(ds[len(ds)/2-1]) + (mathint(ds[len(ds)/2])-mathint(ds[len(ds)/2-1]))/2
+
+//@ func FaultTolerantMidpoint
+//@   panics when len(ds) == 0
+//@   requires forall(i, 0, len(ds), -4611686018427387904 < ds[i] && ds[i] < 4611686018427387904)
+//@   modifies ds[:]
+//@   ensures sorted: forall(i, 0, len(ds), forall(j, i, len(ds), ds[i] <= ds[j]))
+//@   ensures perm: permutation(ds, old(ds))
+//@   ensures trimmed: ds[(len(ds)-1)/3] <= result && result <= ds[len(ds)-1-(len(ds)-1)/3]
+//@   ensures mid: mathint(result) == mathint(ds[(len(ds)-1)/3]) + (mathint(ds[len(ds)-1-(len(ds)-1)/3])-mathint(ds[(len(ds)-1)/3]))/2
